@@ -1,4 +1,8 @@
 import EdpVerif.Lemmas.DistHeader
+import EdpVerif.Lemmas.DistBody
+import EdpVerif.Lemmas.DistReader
+import EdpVerif.Generated.Misc
+import EdpVerif.Generated.Tags
 /-
 C14 — distribution headers and the atom cache resolve every atom correctly.
 
@@ -130,32 +134,141 @@ theorem C14_own_header (order : List Bytes) (c : Cache) (rest : Bytes)
   have : ((entriesOf 0 order).map (·.atom))[j]'(by simp [entriesOf_length]; exact hj) = order[j] := by simp [e]
   simpa using this
 
-/-- the atoms of the header, as the code points the spec reader hands to `ATOM_CACHE_REF` -/
-theorem C14_atoms_as_code_points (order : List Bytes) (hv : ∀ a ∈ order, validUtf8 a = true) :
-    order.mapM utf8Decode = some (order.map fun a => (utf8Decode a).getD []) := by
-  induction order with
-  | nil => rfl
-  | cons a r ih =>
-    have ha := hv a (by simp)
-    unfold validUtf8 at ha
-    obtain ⟨v, hv'⟩ := Option.isSome_iff_exists.mp ha
-    have := ih (fun b hb => hv b (by simp [hb]))
-    simp [List.mapM_cons, hv', this]
+/-- **A whole header-mode message is read by the independent reader as the same control and payload terms, every
+atom intact** — for every list of terms (control alone, control and payload, any further terms), every order in which
+the encoder's hash set may yield their atoms (0 to 255 of them, any lengths the header can carry), whatever the
+reader's cache held before.  No assumption about the bytes of the terms: the atom-cache-generic codec theorem of C01
+(`spec_enc`) is applied to every term with the header's atoms as the reference table.  The two guards are C01's:
+`finiteFloatsL` (NaN/infinities are written but are not Erlang floats) and a total size below 4 GiB (NEW_FUN_EXT
+carries its own size in 32 bits). -/
+theorem C14_message_read_by_spec (inflate : Bytes → Option (Bytes × Nat)) (s : Slots) (order : List Bytes)
+    (terms : List Term) (bs : Bytes) (hne : terms ≠ []) (ho : isOrderFor order terms = true)
+    (hw : wfL terms = true) (hfin : finiteFloatsL terms = true)
+    (h : encodeDist order terms = .ok bs) (hsz : bs.length < 4294967296) :
+    ∃ s', readMessage inflate s bs = some (Term.denL terms, s') := by
+  have hv := order_valid order terms ho hw
+  by_cases hne' : order = []
+  · subst hne'
+    obtain ⟨body, rfl, hb, hr⟩ := C14_zero_atoms terms bs s h
+    refine ⟨s, ?_⟩
+    have hlen := encL_length_ge [] terms body hb
+    have := readTerms_encL { inflate, refs := [] } [] rfl (by simp) terms body (body.length + 1) hne hw hfin hb
+      (by simp at hsz; omega) (by omega)
+    simp [readMessage, hr, this]
+  · obtain ⟨body, rfl, hb, hn, hl⟩ := C14_layout order terms bs hne' h
+    refine ⟨sendSlots s (entriesOf 0 order), ?_⟩
+    have hlen := encL_length_ge order terms body hb
+    have := readTerms_encL { inflate, refs := order.map cps } order rfl (by omega) terms body (body.length + 1)
+      hne hw hfin hb (by simp at hsz; omega) (by omega)
+    simp only [readMessage]
+    rw [C14_header_read_by_spec order s body hne' hn hl]
+    simp only [mapM_cps order hv, this, Option.map_some]
 
-/-- **A whole header-mode message**: whenever the independent reader reads the bytes of the terms — with reference i
-meaning the i-th atom of the header — as the values `vs`, it reads the whole message the library wrote as `vs`.
-(That the term bytes denote the terms' values is the codec's round trip, C01/C03, generic in the atom cache.) -/
-theorem C14_message (inflate : Bytes → Option (Bytes × Nat)) (order : List Bytes) (terms : List Term) (bs : Bytes)
-    (vs : List Value) (hne : order ≠ []) (hv : ∀ a ∈ order, validUtf8 a = true)
-    (h : encodeDist order terms = .ok bs)
-    (hbody : ∀ body, encL order terms = .ok body →
-      readTerms { inflate, refs := order.map fun a => (utf8Decode a).getD [] } (body.length + 1) body = some vs) :
-    ∃ s', readMessage inflate [] bs = some (vs, s') := by
-  obtain ⟨body, rfl, hb, hn, hl⟩ := C14_layout order terms bs hne h
-  refine ⟨sendSlots [] (entriesOf 0 order), ?_⟩
-  simp only [readMessage]
-  rw [C14_header_read_by_spec order [] body hne hn hl]
-  simp only [C14_atoms_as_code_points order hv, hbody body hb, Option.map_some]
+/-- the message used for non-vacuity below: `{foo, #{bar => [foo | baz]}}` with the pid `<n@h.1.2>` as payload; four
+distinct atoms, one of them twice, atoms in a map key, an improper tail and an identifier's node name -/
+def exTerms : List Term :=
+  [.tuple [.atom [102, 111, 111], .map [(.atom [98, 97, 114], .ilist [.atom [102, 111, 111]] (.atom [98, 97, 122]))]],
+   .pid ⟨[110, 64, 104], 1, 2, 3, none⟩]
+def exOrder : List Bytes := [[98, 97, 122], [102, 111, 111], [110, 64, 104], [98, 97, 114]]
+
+example : ∃ bs, exTerms ≠ [] ∧ isOrderFor exOrder exTerms = true ∧ wfL exTerms = true ∧ finiteFloatsL exTerms = true ∧
+    encodeDist exOrder exTerms = .ok bs ∧ bs.length < 4294967296 :=
+  ⟨_, by simp [exTerms], by decide, by decide, by decide, rfl, by decide⟩
+
+/-- **The library's own decoder reads the whole message back identically** (`decode_with_atom_cache` on the output of
+`encode_with_dist_header(_multi)`): the control term and the optional payload come back as written (in C01's wire
+form: `wire t` is `t` up to the encoder's own normalisations — i64 beyond 32 bits as bignum, string as binary …), for
+every order of the atoms, 0 to 255 of them, and WHATEVER the cache held before (older positions and slots, from any
+earlier messages of the connection, do not disturb it). -/
+theorem C14_own_roundtrip (x : Ext) (c : Cache) (order : List Bytes) (t : Term) (q : Option Term) (bs : Bytes)
+    (ho : isOrderFor order (t :: q.toList) = true) (hw : wfT t = true) (hwq : ∀ u ∈ q, wfT u = true)
+    (hd : dep t ≤ MAX_NESTING_DEPTH) (hdq : ∀ u ∈ q, dep u ≤ MAX_NESTING_DEPTH)
+    (h : encodeDist order (t :: q.toList) = .ok bs) :
+    (decodeWithAtomCache x c bs).2 = .ok (wire t, q.map wire) := by
+  have hwl : wfL (t :: q.toList) = true := by
+    cases q with
+    | none => simp [wfL, hw]
+    | some u => simp [wfL, hw, hwq u rfl]
+  have hv := order_valid order _ ho hwl
+  by_cases hne : order = []
+  · subst hne
+    obtain ⟨body, rfl, hb, _⟩ := C14_zero_atoms _ bs [] h
+    have hp : parseHeader c (0 :: body) = (c, .ok body) := by
+      have : rdU 1 ((0 : UInt8) :: body) = .ok (0, body) := rdU_byte 0 body (by omega)
+      simp [parseHeader, this]
+    rw [own_decode x c c [] (by simp) (0 :: body) body hp (cfgFor_nil _) (by simp) t q hw hwq hd hdq hb]
+  · obtain ⟨body, rfl, hb, hn, hl⟩ := C14_layout order _ bs hne h
+    obtain ⟨c1, hp, hlk⟩ := C14_own_header order c body hne hn hl hv
+    rw [own_decode x c c1 order (by omega) (header order ++ body) body hp (cfgFor_of_lookup order c1 hlk) (by simp)
+      t q hw hwq hd hdq hb]
+
+example : ∃ bs, isOrderFor exOrder (exTerms.head! :: (some exTerms[1]!).toList) = true ∧
+    encodeDist exOrder (exTerms.head! :: (some exTerms[1]!).toList) = .ok bs :=
+  ⟨_, by decide, rfl⟩
+
+/-- … and so does every message of a connection's life: any number of messages the library wrote, each with its own
+atoms and order, decoded one after the other on ONE cache, come back identically -/
+theorem C14_own_roundtrip_history (x : Ext) (msgs : List (List Bytes × Term × Option Term × Bytes)) (c : Cache)
+    (h : ∀ m ∈ msgs, isOrderFor m.1 (m.2.1 :: m.2.2.1.toList) = true ∧ wfT m.2.1 = true ∧
+      (∀ u ∈ m.2.2.1, wfT u = true) ∧ dep m.2.1 ≤ MAX_NESTING_DEPTH ∧ (∀ u ∈ m.2.2.1, dep u ≤ MAX_NESTING_DEPTH) ∧
+      encodeDist m.1 (m.2.1 :: m.2.2.1.toList) = .ok m.2.2.2) :
+    decodeSeq x c (msgs.map (·.2.2.2)) = msgs.map fun m => .ok (wire m.2.1, m.2.2.1.map wire) := by
+  induction msgs generalizing c with
+  | nil => rfl
+  | cons m r ih =>
+    obtain ⟨ho, hw, hwq, hd, hdq, he⟩ := h m (by simp)
+    have h1 := C14_own_roundtrip x c m.1 m.2.1 m.2.2.1 m.2.2.2 ho hw hwq hd hdq he
+    have h2 := ih (decodeWithAtomCache x c m.2.2.2).1 (fun m' hm' => h m' (by simp [hm']))
+    simp only [List.map_cons, decodeSeq]
+    rw [← h1, h2]
+
+/-! ### the traversal and the constants, regenerated from the source on every run -/
+
+/-- **Every atom `collect_atoms` finds is in the header and is written as a reference to its position**: for every
+order of the hash set, `encode_atom_impl` with the header's index map turns each collected atom into
+`ATOM_CACHE_REF i` with `order[i]` that atom (never an inline atom, never a wrapped index). -/
+theorem C14_collected_atoms_are_written_as_references (order : List Bytes) (terms : List Term)
+    (ho : isOrderFor order terms = true) (hn : order.length ≤ 255) :
+    ∀ a ∈ atomsOfL terms, ∃ i, i < 255 ∧ order[i]? = some a ∧ encAtom order a = .ok [82, UInt8.ofNat i] := by
+  intro a ha
+  obtain ⟨i, hi, hg, he⟩ := encAtom_ref order a (order_complete order terms ho a ha)
+  exact ⟨i, by omega, hg, he⟩
+
+example : isOrderFor exOrder exTerms = true ∧ exOrder.length ≤ 255 ∧ [110, 64, 104] ∈ atomsOfL exTerms := by decide
+
+/-- the per-variant traversal, regenerated: the arms of `collect_atoms` are those of the model's `atomsOf` (atom; the
+elements of tuples and lists; elements and tail of an improper list; keys and values of a map; the node name of a pid,
+port and reference; module and function of an external fun; module, the pid's node name and the free variables of an
+internal fun; nothing else), and the atoms each `encode_*_impl` hands to `encode_atom_impl` are exactly the ones the
+corresponding arm collects — so no atom is written that was not collected. -/
+theorem C14_traversal_arms_are_the_sources :
+    Gen.COLLECT_ATOMS_ARMS =
+      [("Atom", ["insert:atom"]), ("Tuple|List", ["rec:elem"]), ("ImproperList", ["rec:elem", "rec:tail"]),
+       ("Map", ["rec:key", "rec:value"]), ("Pid", ["insert:pid.node"]), ("Port", ["insert:port.node"]),
+       ("Reference", ["insert:ref_.node"]), ("ExternalFun", ["insert:fun.module", "insert:fun.function"]),
+       ("InternalFun", ["insert:fun.module", "insert:fun.pid.node", "rec:var"]), ("_", [])]
+    ∧ Gen.ENCODE_ATOM_SITES =
+      [("encode_term_impl", ["atom:atom"]), ("encode_pid_impl", ["atom:&pid.node"]),
+       ("encode_port_impl", ["atom:&port.node"]), ("encode_reference_impl", ["atom:&ref_.node"]),
+       ("encode_export_ext_impl", ["atom:&fun.module", "atom:&fun.function"]),
+       ("encode_new_fun_ext_impl", ["atom:&fun.module", "pid:&fun.pid"])] := by decide
+
+/-- the literal constants of the header writer and reader, regenerated, are the protocol's and the model's: at most 255
+references; LongAtoms as soon as one atom exceeds 255 bytes; NewCacheEntryFlag = bit 3 of a 4-bit field, segment index =
+bits 0–2; the LongAtoms bit is bit 0 of field N (0x01 of the last byte for even N, 0x10 for odd N) on both sides;
+`N/2 + 1` flag bytes on both sides; tags 68 and 82 -/
+theorem C14_constants_are_the_sources :
+    Gen.C14_ENC_MAX_ATOMS = 255 ∧ Gen.C14_ENC_LONG_THRESHOLD = 255 ∧ Gen.C14_ENC_NEW_ENTRY_FLAG = 8 ∧
+    (Gen.C14_ENC_LONG_BIT_EVEN, Gen.C14_ENC_LONG_BIT_ODD) = (1, 16) ∧ Gen.C14_ENC_NIBBLE_SHIFT_ODD = 4 ∧
+    (Gen.C14_DEC_LONG_BIT_EVEN, Gen.C14_DEC_LONG_BIT_ODD) = (1, 16) ∧
+    Gen.C14_DEC_NIBBLE_MASK = 15 ∧ Gen.C14_DEC_NIBBLE_SHIFT = 4 ∧ Gen.C14_DEC_NEW_ENTRY_MASK = 8 ∧
+    Gen.C14_DEC_SEGMENT_MASK = 7 ∧ Gen.C14_ENC_FLAGS_LEN = "(atoms.len()/2)+1" ∧
+    Gen.C14_DEC_FLAGS_LEN = "(num_atom_cache_refsasusize)/2+1" ∧ Gen.DIST_HEADER = 68 ∧ Gen.ATOM_CACHE_REF = 82 ∧
+    (∀ order : List Bytes, flagNibbles order =
+      List.replicate order.length Gen.C14_ENC_NEW_ENTRY_FLAG ++ [if isLong order then 1 else 0]) ∧
+    (∀ order terms, order.length > Gen.C14_ENC_MAX_ATOMS → encodeDist order terms = .error .tooManyAtoms) := by
+  refine ⟨by decide, by decide, by decide, by decide, by decide, by decide, by decide, by decide, by decide, by decide,
+    by decide, by decide, by decide, by decide, fun _ => rfl, fun order terms h => C14_limit_too_many order terms h⟩
 
 /-! ### histories: a conforming sender that creates, re-uses and overwrites cache entries across messages -/
 
@@ -225,6 +338,57 @@ theorem C14_unfilled_slot_rejected (long : Bool) (flags : Bytes) (k i : Nat) (c 
     parseRefs long flags (k + 1) i c bs = (c, .error .err) := by
   have h1 : seg / 8 = 0 := by omega
   simp [parseRefs, hr, hnib, h1, Nat.mod_eq_of_lt hseg, hnone]
+
+/-! ### every input, conforming sender or not -/
+
+/-- **Whatever header the library accepts, the protocol accepts, and every position means the same atom** — for EVERY
+byte string and every state of the cache (no assumption on the sender): the independent reader reads the same atoms at
+the same positions, leaves the same bytes for the terms, and the two caches still agree afterwards.  The library never
+resolves a reference to anything but what the layout prescribes. -/
+theorem C14_accepted_header_means_what_the_protocol_says (c : Cache) (s : Slots) (bs : Bytes) (c' : Cache) (rest : Bytes)
+    (ha : SlotsAgree c s) (h : parseHeader c bs = (c', .ok rest)) :
+    ∃ as s', readHeader s bs = some (as, s', rest) ∧ SlotsAgree c' s' ∧
+      (∀ j (hj : j < as.length), c'.atoms.lookup j = some as[j]) :=
+  parseHeader_sound c s bs c' rest ha h
+
+/-- a new entry in slot (3, 7) at position 0, referred to again at position 1 of the same header -/
+example : ∃ c', parseHeader {} [2, 0x3b, 0, 7, 3, 102, 111, 111, 7, 106] = (c', .ok [106]) ∧
+    c'.atoms = [(1, [102, 111, 111]), (0, [102, 111, 111])] := ⟨_, rfl, rfl⟩
+
+/-- **A header the protocol refuses is refused by the library** — a reference to a slot that was never filled, a
+truncated reference, a missing flag byte — in every state of the cache, after any history. -/
+theorem C14_header_the_protocol_refuses_is_refused (c : Cache) (s : Slots) (bs : Bytes) (ha : SlotsAgree c s)
+    (h : readHeader s bs = none) : ∃ e, (parseHeader c bs).2 = .error e := by
+  rcases hp : parseHeader c bs with ⟨c', e | rest⟩
+  · exact ⟨e, rfl⟩
+  · obtain ⟨as, s', hr, _⟩ := parseHeader_sound c s bs c' rest ha hp
+    rw [h] at hr; cases hr
+
+/-- a reference to slot (3, 7), which nothing filled -/
+example : readHeader [((3, 8), [102, 111, 111])] [1, 0x03, 7, 106] = none := by decide
+
+/-- a history of arbitrary byte strings on one cache, followed up to the first header the library refuses: every
+accepted header is accepted by the protocol and resolves, position by position, as the protocol says -/
+def AcceptedAsProtocol : Cache → Slots → List Bytes → Prop
+  | _, _, [] => True
+  | c, s, m :: r =>
+    ∀ rest, (parseHeader c m).2 = .ok rest →
+      ∃ as s', readHeader s m = some (as, s', rest) ∧
+        (∀ j (hj : j < as.length), (parseHeader c m).1.atoms.lookup j = some as[j]) ∧
+        AcceptedAsProtocol (parseHeader c m).1 s' r
+
+/-- **Any sender, any history**: as long as the library accepts the headers it is given, it reads them as the protocol
+does (so, with `C14_header_the_protocol_refuses_is_refused`, the first header the protocol refuses is the first the
+library refuses).  `C14_history` is the other direction for conforming senders: their headers ARE accepted. -/
+theorem C14_any_sender_history (msgs : List Bytes) (c : Cache) (s : Slots) (ha : SlotsAgree c s) :
+    AcceptedAsProtocol c s msgs := by
+  induction msgs generalizing c s with
+  | nil => trivial
+  | cons m r ih =>
+    intro rest hr
+    have hp : parseHeader c m = ((parseHeader c m).1, .ok rest) := by rw [← hr]
+    obtain ⟨as, s', h1, h2, h3⟩ := parseHeader_sound c s m _ rest ha hp
+    exact ⟨as, s', h1, h3, ih _ s' h2⟩
 
 /-- reading a header never reaches an out-of-range index into the flag bytes (no panic), for any input at all -/
 theorem C14_no_panic_refs (long : Bool) (flags : Bytes) (k i : Nat) (c : Cache) (bs : Bytes)
